@@ -538,6 +538,8 @@ def classify(uri_path, entry, idx, raw, norm, tmp_names):
             return "C19/escape-dotdot"
         if any("/" in c for c in uri_path):
             return "C19/escape-embedded-slash"
+        if any(c == "." for c in uri_path):
+            return "C19/escape-dot"
     elif ".." in segs:
         return "C19/escape-dotdot"
     if norm.startswith(ROOT):
@@ -583,17 +585,20 @@ def execute(sim, scenario):
     outside0 = fs.snapshot(exclude=ROOT)
     inside0 = fs.snapshot(under=ROOT)
 
-    last_rx = [None]
+    last_rx = [None, []]  # instant, wire numbers of the datagrams delivered to the server at that instant
 
     def dtap(entry, copy, data):
         if entry["dst"] == SERVER:
-            last_rx[0] = (loop.now, entry["n"])
+            if last_rx[0] != loop.now:
+                last_rx[0] = loop.now
+                last_rx[1] = []
+            last_rx[1].append(entry["n"])
 
     sim.net.deliver_taps.append(dtap)
 
     def ctx_fn():
-        lr = last_rx[0]
-        return lr[1] if lr is not None and lr[0] == loop.now else None
+        # rendering starts in the loop iteration after the delivery, at the same virtual instant
+        return list(last_rx[1]) if last_rx[0] == loop.now else None
 
     fs.ctx_fn = ctx_fn
     fsig = hashlib.blake2b(digest_size=8)
@@ -981,27 +986,46 @@ def execute(sim, scenario):
                 tmp_names.add(e["paths"][1])
         escapes = 0
         kinds_by_path = {}
+
+        def attribute(e, norm):
+            """The request datagram (wire entry) during whose rendering the
+            journal entry was made: the only one delivered at that instant, or
+            among several the one whose Uri-Path leads to the path."""
+            cands = [wire[n] for n in (e["ctx"] or []) if wire[n]["msg"] is not None
+                     and 1 <= wire[n]["msg"]["code"] < 32]
+            if len(cands) == 1:
+                return cands[0]
+            for w in reversed(cands):
+                up = [v.decode("utf-8", "replace") for v in rc.opts(w["msg"], rc.URI_PATH)]
+                mapped = fs_path.normalise(str(posixpath.join(ROOT, "/".join(up))))
+                if norm in (mapped, posixpath.dirname(mapped)) or (
+                        norm in tmp_names and posixpath.dirname(norm) == posixpath.dirname(mapped)):
+                    return w
+            return None
+
+        def describe(w, info):
+            up = [v.decode("utf-8", "replace") for v in rc.opts(w["msg"], rc.URI_PATH)]
+            info["uri_path"] = up
+            info["method"] = METHOD_NAMES.get(w["msg"]["code"], w["msg"]["code"])
+            if w["src"] == client.addr:
+                info["op"] = client.tok_op.get(w["msg"]["token"])
+            elif w["src"] == raddr:
+                info["client"] = "aiocoap"
+            return up
+
         for e in fs.journal:
             for idx, norm in enumerate(e["paths"]):
                 if inside(norm):
                     continue
                 escapes += 1
-                uri_path = None
                 info = {"fs_op": e["op"], "path": norm, "raw": e["raw"][idx], "err": e["err"], "write": write}
-                if e["ctx"] is not None:
-                    w = wire[e["ctx"]]
-                    if w["msg"] is not None:
-                        uri_path = [v.decode("utf-8", "replace") for v in rc.opts(w["msg"], rc.URI_PATH)]
-                        info["uri_path"] = uri_path
-                        info["method"] = METHOD_NAMES.get(w["msg"]["code"], w["msg"]["code"])
-                        if w["src"] == client.addr:
-                            info["op"] = client.tok_op.get(w["msg"]["token"])
-                        elif w["src"] == raddr:
-                            info["client"] = "aiocoap"
+                w = attribute(e, norm)
+                if w is not None:
+                    uri_path = describe(w, info)
                     kind = classify(uri_path, e, idx, e["raw"][idx], norm, tmp_names)
                     kinds_by_path.setdefault(norm, kind)
                 else:
-                    # not during a request: the refresh task polling an observed path
+                    # not attributable to one request: e.g. the refresh task polling an observed path
                     kind = kinds_by_path.get(norm) or classify(None, e, idx, e["raw"][idx], norm, tmp_names)
                     info["background"] = True
                 violation(kind, info)
@@ -1010,10 +1034,9 @@ def execute(sim, scenario):
             for e in fs.journal:
                 if e["op"] in mutating or (e["op"] == "open" and any(c in e.get("mode", "") for c in "wax+")):
                     info = {"fs_op": e["op"], "paths": e["paths"], "err": e["err"]}
-                    if e["ctx"] is not None and wire[e["ctx"]]["msg"] is not None:
-                        w = wire[e["ctx"]]["msg"]
-                        info["method"] = METHOD_NAMES.get(w["code"], w["code"])
-                        info["uri_path"] = [v.decode("utf-8", "replace") for v in rc.opts(w, rc.URI_PATH)]
+                    w = attribute(e, e["paths"][-1])
+                    if w is not None:
+                        describe(w, info)
                     violation("C19/readonly-fs-mutation", info)
 
         # ------------------------------------------------------------ notifications
